@@ -481,6 +481,11 @@ func knownClass(obs string, u gen.Universe) string {
 // version of the universe (prereleases included; an over-approximation).
 func pinnable(u gen.Universe, v gen.UVer) bool {
 	for _, r := range v.Reqs {
+		// (a requirement behind a marker may not apply at all: it cannot be
+		// what keeps the version from being pinned, as far as this test knows)
+		if strings.Contains(r.Type, "Environment") {
+			continue
+		}
 		c, err := semver.PyPI.ParseConstraint(r.Req)
 		if err != nil {
 			continue
